@@ -2,6 +2,7 @@ package main
 
 import (
 	"fmt"
+	"os"
 	"sync"
 	"sync/atomic"
 	"time"
@@ -35,6 +36,10 @@ func checkC14(c *Ctx) int {
 		layouts = append(layouts, layout{"small7/D", []uint64{3, 3, 3, 3, 0, 3, 3}, 2})
 	}
 	var states, trans, edges, levelReads, restarts, scaleReads int64
+	part := os.Getenv("C14_PART") // debugging aid: "levels" = only the stored-level configurations, "graph" = only the state graph
+	if part == "levels" {
+		layouts = nil
+	}
 	for _, lo := range layouts {
 		lmWithSplit = lo.name == "small7/S"
 		gr, s, t := lmExplore(c, g, lo.initSV, lo.ops, lo.ops, l1, l2, !lmWithSplit)
@@ -98,14 +103,28 @@ func checkC14(c *Ctx) int {
 		run.Sample(map[string]interface{}{"layout": lo.name, "initial_supervoxels": lo.initSV, "level1_classes": len(l1.Classes), "level2_classes": len(l2.Classes),
 			"example_class_children": l1.Classes[len(l1.Classes)/2], "transitions": len(gr.edges)})
 	}
+	// the stored levels as specification state: 8-octant parents, MaxDownresLevel 0 / 1 / 3, stale and directly written
+	// levels, non-mutating re-POSTs, simulated long behaviours, the idle predicate during a request
+	lst := &lvStats{}
+	if part != "graph" {
+		c14Levels(c, run, lst)
+	}
+	states += lst.states
+	trans += lst.trans
+	edges += lst.edges
+	levelReads += lst.levelReads
+	run.Set("stored_level_behaviours_replayed", lst.behaviours)
+	run.Set("stored_level_operations_by_kind", lst.byOp)
+	run.Set("reads_above_the_maximum_level_refused_or_empty", lst.refused)
 	run.Set("states", states)
 	run.Set("transitions", trans)
 	run.Set("traces_validated_against_impl", edges)
 	run.Set("level_volumes_compared", levelReads)
 	run.Set("level_reads_through_other_endpoints", scaleReads)
 	run.Set("level_reads_by_option_combination", lmm.TakeStats())
-	run.Set("rule", "case = one transition of the Labelmap.tla state graph (merge, cleave, split-supervoxel, renumber, mutating voxel write of a region, body split, index / mapping re-ingest; ingestion through POST raw and POST blocks?downres=true) on a labelmap instance with MaxDownresLevel=2; after the transition and the instance's own idle predicate, the stored level-1 and level-2 volumes (supervoxels and mapped) are read in full through GET raw?scale= and, with rotating options, through GET blocks?scale= / specificblocks?scale= (every compression), label / labels?scale= and sparsevol?scale= (rles, srles, blocks; body and supervoxel), and every voxel is compared with the vote TLC evaluates for its class (classes = distinct multisets of the 8 regions / level-1 classes beneath a voxel, computed by brute force from the shared geometry)")
-	run.Assume = []string{"2x2x2 voting on cubic 32^3 blocks; 4 level-0 blocks incl. a negative block coordinate, parents with 1 and 3 present octants", "labels compared modulo an order-preserving bijection bound from responses"}
+	run.Set("rule", "case = one transition of the Labelmap.tla state graph (merge, cleave, split-supervoxel, renumber, mutating voxel write of a region, body split, index / mapping re-ingest; ingestion through POST raw and POST blocks?downres=true) on a labelmap instance with MaxDownresLevel=2; after the transition and the instance's own idle predicate, the stored level-1 and level-2 volumes (supervoxels and mapped) are read in full through GET raw?scale= and, with rotating options, through GET blocks?scale= / specificblocks?scale= (every compression), label / labels?scale= and sparsevol?scale= (rles, srles, blocks; body and supervoxel), and every voxel is compared with the vote TLC evaluates for its class (classes = distinct multisets of the 8 regions / level-1 classes beneath a voxel, computed by brute force from the shared geometry).  Growth (LabelmapLevels.tla): the stored levels are specification state st[level][class] for MaxDownresLevel = 0, 1, 2 and 3, recomputed per touched block like the server does; TLC enumerates every behaviour up to the depth bound (depth 1 completely, a seeded share of the second operations; long simulated behaviours with restarts) of: mutating POST raw of a whole block-aligned box in ONE request (1, 2, 4 and all 8 octants of one parent block, the whole volume), split-supervoxel with and without ?downres=false, solid blocks written directly at scale k through POST blocks?scale=k and ingest-supervoxels?scale=k, non-mutating POST raw over existing blocks in a child version, merge / cleave; checks Inv_C14_UpToDate (without the stale variants the incremental recomputation equals the documented vote, for every number of levels) and Inv_C14_Heals (after a stale split or a direct write, every level voxel above a block touched by the next mutation is again the vote of what is stored beneath it); every behaviour is replayed as a tree of versions on a geometry with a complete 2x2x2 cube of level-0 blocks plus one block at odd negative y / z (ingested as one box, as one POST blocks?downres=true, or in two POST blocks requests that give the parent block 1..4 and then 4..7 octants) and on the 4-block geometry, and every stored level is compared voxel by voxel with st; a scale above the maximum must be refused or empty; while one mutating request runs the node samples the instance's idle predicate (Updating or AnyScaleUpdating) between two reads of ScaleUpdating(max): idle must not be reported while the coarsest level is being updated; distinct = (configuration, behaviour prefix)")
+	run.Assume = []string{"2x2x2 voting on cubic 32^3 blocks; 4 level-0 blocks incl. a negative block coordinate (parents with 1 and 3 present octants) and 9 level-0 blocks (a parent with all 8 octants, one with a single octant at odd negative coordinates)", "labels compared modulo an order-preserving bijection bound from responses",
+		"parents with 5..7 touched octants arise at ingestion only (POST blocks in two requests); a mutating POST raw of a box touches 1, 2, 4 or 8 octants of a parent", "what the mapping makes of a stale level voxel that still holds a split-away supervoxel is not compared (supervoxel reads of the levels are)", "after a non-mutating re-POST only voxels and levels are compared (its label indices are double counted by design)"}
 	fmt.Printf("C14: tlc %d states; %d transitions replayed, %d level volumes compared (%d/%d classes) in %.1fs; violations=%d\n",
 		states, edges, levelReads, len(l1.Classes), len(l2.Classes), since(t0), run.Violations())
 	return run.Finish()
